@@ -39,7 +39,7 @@ inductive RROut
   | err                -- "members and topics are not provided"
   | diverges           -- the inner loop is not left
   | plan (p : Plan)
-  deriving Repr
+  deriving DecidableEq, Repr
 
 /-- `roundRobinBalancer.Plan` on the sorted slices; `noTopics` = `len(topics) == 0` -/
 def rrPlan (ms : Members) (noTopics : Bool) (tps : List TP) : RROut :=
